@@ -43,6 +43,11 @@ func runC02(c *core.Ctx) {
 	p := progFor(c.Seed, "C02", pi, cfg)
 	nfa := BuildNFA(p, false)
 	argv := gen.Argv(c.R, p, cfg)
+	if c.R.Intn(6) == 0 {
+		// a sentence of another spec over the same declarations: a near miss
+		argv = gen.Argv(c.R, gen.AltProg(c.R, p, cfg), cfg)
+		c.Inc("foreign_sentences")
+	}
 	if hasHelp(argv) {
 		return
 	}
